@@ -53,6 +53,7 @@ func runC11(c *Ctx) {
 	rulePoolSyncUse(c, p, "C11.sync-use")
 	rulePoolLimits(c, p, "C11.limits")
 	rulePoolCtorLeak(c, p, "C11.ctor-leak")
+	ruleHealthNonBlocking(c, p, "C11.health-nonblocking")
 	ruleHijackCloses(c, p, "C11.hijack-closes")
 	ruleCloseWaits(c, p, "C11.close-waits")
 	if roles := resolveDo(c, p); roles != nil {
